@@ -14,7 +14,7 @@ var kindWeights = []struct {
 	w int
 }{
 	{"valid", 30}, {"multi-operation", 10}, {"operation-not-found", 9}, {"bad-variable", 9},
-	{"parse-error", 8}, {"unknown-field", 14}, {"no-operation", 6}, {"invalid", 8}, {"rule-panic", 4},
+	{"parse-error", 8}, {"unknown-field", 14}, {"no-operation", 6}, {"invalid", 8}, {"rule-panic", 4}, {"over-token-limit", 5},
 }
 
 func pickKind(rng *rand.Rand) string {
